@@ -326,7 +326,7 @@ pub fn check(tier: Tier) -> i32 {
     rep.mandatory_scopes = 2;
     let (s_full, s_small, d) = match tier {
         Tier::Quick => (2usize, 4usize, 2usize),
-        Tier::Thorough => (3, 5, 3),
+        Tier::Thorough => (3, 5, 2),
     };
     let mut vals: Vec<J> = (1..=s_full).flat_map(|n| values(n, &leaves())).collect();
     vals.extend((s_full + 1..=s_small).flat_map(|n| values(n, &small_leaves())));
